@@ -50,9 +50,18 @@ Fixpoint select {A} (m : list bool) (l : list A) : list A :=
   end.
 
 (* a before b in the position-sorted list: compatible iff a ends before b starts.
-   strict (MUST): not abutting either. *)
+   strict (MUST): not abutting either -- except two abutting single-nucleotide substitutions, which the
+   statement covers explicitly ("merged adjacent variants": --max-adjacent-as-mnv 2 merges them). *)
+Definition is_snv (v : variant) : bool := (v_e v - v_s v =? 1) && (zlen (v_alt v) =? 1).
 Definition compat (strict : bool) (a b : variant) : bool :=
-  if strict then v_e a <? v_s b else v_e a <=? v_s b.
+  if strict then (v_e a <? v_s b) || ((v_e a =? v_s b) && is_snv a && is_snv b) else v_e a <=? v_s b.
+
+(* three records in a row each abutting the next: a run longer than --max-adjacent-as-mnv 2 *)
+Fixpoint no_run3 (h : list variant) : bool :=
+  match h with
+  | a :: ((b :: c :: _) as h') => negb ((v_e a =? v_s b) && (v_e b =? v_s c)) && no_run3 h'
+  | _ => true
+  end.
 
 Fixpoint pairwise (strict : bool) (h : list variant) : bool :=
   match h with
@@ -190,8 +199,10 @@ Definition must_var (x : input) (v : variant) : bool :=
   (negb (in_end_nf x) || (v_e v + 6 <=? zlen (in_tx x))) &&
   forallb (fun p => negb (overlaps v (p - 3) (p + 6))) (in_sec x).
 
+Definition must_hap (x : input) (h : list variant) : bool := forallb (must_var x) h && no_run3 h.
+
 Definition must_haps (x : input) : list (list variant) :=
-  filter (forallb (must_var x)) (haplotypes true (in_vars x)).
+  filter (must_hap x) (haplotypes true (in_vars x)).
 
 Definition must_starts (x : input) (hs : seq) : list Z :=
   if in_coding x then [in_orf x] else atg_positions hs 0.
@@ -332,7 +343,7 @@ Record witness := mkWit { w_mask : list bool; w_start : Z; w_aas : seq; w_stoppe
 Definition must_witnesses (x : input) (p : seq) : list witness :=
   flat_map (fun m =>
     let h := select m (in_vars x) in
-    if forallb (must_var x) h then
+    if must_hap x h then
       let hs := apply_hap (in_tx x) h in
       flat_map (fun st =>
         let tr := translate_from hs st (map (shift h) (in_sec x)) in
